@@ -32,7 +32,7 @@ KINDS = [
     ('shrink.py', SHRINK), ('grow.py', GROW), ('empty.py', b''), ('win.pyw', SHRINK), ('syntaxerr.py', b'def (:\n'), ('undecodable.py', b'\xff\xfe\x00bad = 1\n'),
     ('unreadable.py', SHRINK), ('readonly.py', SHRINK), ('notes.txt', SHRINK), ('backup.py.bak', SHRINK), ('nosuffix', SHRINK),
     ('stub.pyi', SHRINK), ('cython.pyx', SHRINK), ('UPPER.PY', SHRINK), ('py', SHRINK),
-    ('subdir', 'DIR'), ('link.py', 'LINK-FILE'), ('linkdir', 'LINK-DIR'), ('loop', 'LINK-LOOP'),
+    ('subdir', 'DIR'), ('link.py', 'LINK-FILE'), ('linkdir', 'LINK-DIR'), ('loop', 'LINK-LOOP'), ('dangling.py', 'LINK-DANGLING'),
 ]
 OUTSIDE = 'outside'      # sibling directory holding link targets; never passed as an argument
 
@@ -71,6 +71,8 @@ def build_tree(root, entries):
             os.symlink(os.path.join('..', OUTSIDE, 'pkg'), p)
         elif content == 'LINK-LOOP':
             os.symlink('.', p)
+        elif content == 'LINK-DANGLING':
+            os.symlink('no-such-target.py', p)
         else:
             with open(p, 'wb') as f:
                 f.write(content)
@@ -191,6 +193,10 @@ def run_case(entries, argform, flags, reverse, scratch, runner='inprocess'):
             args = [tree, tree]
         elif argform == 'file+dir':
             args = targets[:1] + [tree]
+        elif argform == 'missing-first':
+            args = [os.path.join(tree, 'no_such_module.py')] + targets
+        elif argform == 'missing-last':
+            args = targets + [os.path.join(tree, 'no_such_module.py')]
         else:
             raise ValueError(argform)
         if not args:
@@ -251,7 +257,7 @@ def run_case(entries, argform, flags, reverse, scratch, runner='inprocess'):
         shutil.rmtree(root, ignore_errors=True)
 
 
-ARGFORMS = ['dir', 'files', 'file-twice', 'dir-twice', 'file+dir']
+ARGFORMS = ['dir', 'files', 'file-twice', 'dir-twice', 'file+dir', 'missing-first', 'missing-last']
 FLAGSETS = [[], ['--no-remove-explicit-return-none', '--no-rename-locals', '--no-hoist-literals']]
 
 
@@ -284,7 +290,7 @@ def run_task(task):
                 if i % nparts != part:
                     continue
                 for argform in ARGFORMS:
-                    if len(entries) == 3 and argform in ('file-twice', 'dir-twice') and tier == 'quick':
+                    if len(entries) == 3 and argform in ('file-twice', 'dir-twice', 'missing-last') and tier == 'quick':
                         continue
                     for fi, flags in enumerate(FLAGSETS):
                         if fi and len(entries) > 2:
@@ -335,7 +341,7 @@ def case(res, entries, argform, flags, reverse, scratch):
         if kind in seen:
             continue
         seen.add(kind)
-        failing = sorted(set(KINDS[k][0] for k in entries if KINDS[k][0].split('.')[0] in ('syntaxerr', 'undecodable', 'unreadable', 'readonly', 'loop')))
+        failing = sorted(set(KINDS[k][0] for k in entries if KINDS[k][0].split('.')[0] in ('syntaxerr', 'undecodable', 'unreadable', 'readonly', 'loop', 'dangling')))
         res.violation('%s:%s:%s' % (kind, argform, '+'.join(failing) or 'no-fault'), {'entries': list(entries), 'argform': argform, 'flags': flags, 'reverse': reverse}, detail)
     res.sample({'entries': [KINDS[k][0] for k in entries], 'argform': argform, 'reverse': reverse}, 2)
 
@@ -398,7 +404,7 @@ def replay(case_):
         if r and r[0]:
             kind, detail = r[0][0]
             entries = case_['entries']
-            failing = sorted(set(KINDS[k][0] for k in entries if KINDS[k][0].split('.')[0] in ('syntaxerr', 'undecodable', 'unreadable', 'readonly', 'loop')))
+            failing = sorted(set(KINDS[k][0] for k in entries if KINDS[k][0].split('.')[0] in ('syntaxerr', 'undecodable', 'unreadable', 'readonly', 'loop', 'dangling')))
             pre = 'subprocess:' if case_.get('runner') == 'subprocess' else ''
             sig = pre + kind if pre else '%s:%s:%s' % (kind, case_['argform'], '+'.join(failing) or 'no-fault')
             return {'signature': sig, 'detail': detail}
